@@ -99,8 +99,9 @@ type cliCall struct {
 }
 
 type cliCase struct {
-	lmtp   bool
-	stream []byte
+	lmtp      bool
+	tlsStream []byte // non-nil: the scripted server completes a real TLS handshake after its 220 and then sends this
+	stream    []byte
 	cuts   []int
 	focus  string
 	calls  []cliCall
@@ -226,9 +227,19 @@ func cliSeg(stream []byte, cuts []int) []Raw {
 
 // runCli executes the case on the real client and renders it.
 func runCli(cs cliCase) *Sx {
-	sc := NewScriptConn(cliSeg(cs.stream, cs.cuts))
 	var chunks [][]byte
-	sc.OnWrite = func(b []byte) { chunks = append(chunks, append([]byte{}, b...)) }
+	var sc netConn
+	if cs.tlsStream != nil {
+		// a scripted server that really speaks TLS after the 220: one record with the TLS-phase stream
+		pc := NewPhasedConn(cliSeg(cs.stream, cs.cuts), []Raw{{Kind: RawData, Data: cs.tlsStream}}, true, false)
+		pc.RemoteServer = true
+		pc.OnWire = func(b []byte) { chunks = append(chunks, append([]byte{}, b...)) }
+		sc = pc
+	} else {
+		s0 := NewScriptConn(cliSeg(cs.stream, cs.cuts))
+		s0.OnWrite = func(b []byte) { chunks = append(chunks, append([]byte{}, b...)) }
+		sc = s0
+	}
 	type cbRec struct {
 		rcpt string
 		st   *smtp.SMTPError
@@ -363,8 +374,12 @@ func runCli(cs cliCase) *Sx {
 	for _, k := range cs.cuts {
 		cuts.Add(Num(int64(k)))
 	}
-	return L(A("cli"), L(A("lmtp"), B(cs.lmtp)), L(A("stream"), X(cs.stream)), L(A("cuts"), cuts),
+	res := L(A("cli"), L(A("lmtp"), B(cs.lmtp)), L(A("stream"), X(cs.stream)), L(A("cuts"), cuts),
 		L(A("focus"), A(cs.focus)), L(A("calls"), calls), L(A("obs"), obs))
+	if cs.tlsStream != nil {
+		res.Add(L(A("tlsstream"), X(cs.tlsStream)))
+	}
+	return res
 }
 
 // ---------- generators ----------
@@ -768,6 +783,48 @@ func genCliTxn(rng *rand.Rand, thorough bool, emit func(*Sx)) {
 			}
 			return acc, verd
 		}, rng.Intn(2) == 0, rng.Intn(3) == 0)
+	}
+}
+
+// genCliTLSok: the STARTTLS upgrade SUCCEEDS (the scripted server speaks real TLS). What the server
+// advertised in plaintext and what it advertises inside TLS differ; octets injected behind the 220 must
+// be dropped; parameters must follow the EHLO reply received inside TLS.
+func genCliTLSok(rng *rand.Rand, thorough bool, emit func(*Sx)) {
+	plainSets := [][]string{{"STARTTLS"}, {"STARTTLS", "SMTPUTF8", "SIZE", "8BITMIME", "DSN"}, {"STARTTLS", "REQUIRETLS", "AUTH"}}
+	tlsSets := [][]string{nil, {"8BITMIME"}, {"SMTPUTF8", "SIZE"}, {"REQUIRETLS", "DSN", "AUTH", "RRVS"}}
+	injs := []string{"", "250-srv\r\n250 SMTPUTF8\r\n250 2.1.0 injected ok\r\n"}
+	for _, ps := range plainSets {
+		for _, ts := range tlsSets {
+			for _, inj := range injs {
+				for variant := 0; variant < 3; variant++ {
+					plain := "220 ready\r\n" + ehloReply(ps) + "220 2.0.0 go ahead\r\n" + inj
+					tlsPhase := ehloReply(ts) + "250 2.1.0 ok\r\n250 2.1.5 ok\r\n250 2.0.0 ok\r\n221 2.0.0 bye\r\n"
+					cs := cliCase{stream: []byte(plain), tlsStream: []byte(tlsPhase), focus: "starttls-ok"}
+					cs.cuts = []int{len("220 ready\r\n"), len(plain) - len(inj)}
+					mo := &smtp.MailOptions{}
+					ro := &smtp.RcptOptions{}
+					switch variant {
+					case 0:
+						mo.UTF8 = true
+					case 1:
+						mo.Size = 42
+						mo.RequireTLS = true
+					case 2:
+						mo.Return = smtp.DSNReturnFull
+						mo.EnvelopeID = "id1"
+						ro.Notify = []smtp.DSNNotify{smtp.DSNNotifySuccess}
+					}
+					cs.calls = []cliCall{
+						{kind: "starttls", ann: []*Sx{L(A("exp"), A("accepted"))}},
+						{kind: "ext", s: "SMTPUTF8"},
+						{kind: "mail", s: "s@example.org", mopts: mo, ann: []*Sx{advSx(ts)}},
+						{kind: "rcpt", s: "r@example.org", ropts: ro, ann: []*Sx{advSx(ts)}},
+						{kind: "noop"}, {kind: "quit"},
+					}
+					emit(runCli(cs))
+				}
+			}
+		}
 	}
 }
 
@@ -1234,6 +1291,7 @@ func GenCli(rng *rand.Rand, thorough bool, emit func(*Sx)) {
 	genCliHostile(rng, thorough, emit)
 	genCliTxn(rng, thorough, emit)
 	genCliStartTLS(rng, thorough, emit)
+	genCliTLSok(rng, thorough, emit)
 	genCliAuth(rng, thorough, emit)
 	genCliHello(rng, thorough, emit)
 	genCliSendMail(rng, thorough, emit)
